@@ -86,7 +86,9 @@ def _compound_case(keys, dens_kind, wl_kind):
             E.eq('lambda_sq_E', lam * lam * en, nsf.ENERGY_FACTOR)
         else:
             lam = nsf.ABSORPTION_WAVELENGTH
+        snap = cm.Snapshot(compound=f)
         result = nsf.neutron_scattering(f, **kw)
+        snap.check(E, 'neutron_scattering')
         o = cm.neutron_oracle(list(zip(counts, keys)), data, dens, lam)
         if o['sigma_s'] >= o['sigma_c']:
             cm.claim_neutron(E, '', result, o)
